@@ -19,9 +19,15 @@ SEEDS = [
  ("c10-1", "C10", "Semphore::wait_timeout_impl: re-check after set_release() removed on the give-up path",
   "a post() whose unpark/take_release lands between the timed-out waiter's is_unparked() load and its set_release() store",
   "c10_sem_waiter_vs_post_d1", "CAUGHT", "permits not conserved at quiescence"),
+ ("c11-1", "C11", "Condvar::wait_impl runs the give-up hand-shake only for Timeout, not for Canceled",
+  "a coroutine waiter is cancelled while blocked on the condvar; a later (or racing) notify_one with another waiter enqueued wakes nobody",
+  "c11_condvar_cancelled_waiter_w2_vs_notify_one", "SEE-RESULT", "the C11 harnesses had no cancellation (stated outside); added a cancelled-waiter harness with a second waiter (thorough tier, ~25 min); result below"),
  ("c12-1", "C12", "RwLock::lock: re-check after set_release() removed in the Canceled arm",
   "the holder's whole hand-off lands between the cancelled waiter's is_unparked() load and its set_release() store",
   "c12_rwlock_cancelled_writer_d1", "CAUGHT-AFTER-STRENGTHENING", "the first C12 harnesses had no cancellation; added the cancelled-writer harness (park gives up with Canceled at a solver-chosen moment, holder's drop at any atomic step of the give-up hand-shake)"),
+ ("c01-1", "C01", "Join::trigger takes the registered waiter from to_wake before it publishes state = done",
+  "a joiner registers, re-checks (still 'running') and parks inside the window between trigger's take() == None and its state store: nobody ever unparks it",
+  "c01_trigger_vs_registering_thread_joiner_d1", "CAUGHT-AFTER-STRENGTHENING", "the waiter-root harness cannot see it (same shape as c05-1 / c07-1); added thread-joiner harnesses for both root assignments: the trigger-root twin refutes it in 5 s"),
  ("c02-1", "C02", "Park::subscribe's re-check after registering uses `!self.check_park()` (which clears the token) instead of `state.load()`",
   "the worker running subscribe of park #1 is delayed after publishing the coroutine; unpark #1 resumes the coroutine on another worker, park #1 returns, unpark #2 (for park #2) sets the token, then the stale re-check of park #1 clears it: park #2 blocks for ever",
   None, "MISSED", "needs the resumed coroutine's continuation to run *concurrently with the tail of its own subscribe* on another worker. In the sequential model a continuation cannot start before subscribe returns (stated as outside the bound in DESIGN §2.3/§5 C02); an unpark issued while subscribe is still running is indistinguishable from one that is concurrent with park #1, which may legitimately absorb it"),
